@@ -475,6 +475,19 @@ func (e *Engine) installSpecObjs(pkg *types.Package) {
 		sc.Insert(fn)
 		e.specObjs[fn] = "eq"
 	}
+	{
+		// has[K comparable, V any](m map[K]V, k K) bool  -- map membership
+		kn := types.NewTypeName(token.NoPos, pkg, "K", nil)
+		kp := types.NewTypeParam(kn, types.Universe.Lookup("comparable").Type())
+		vn := types.NewTypeName(token.NoPos, pkg, "V", nil)
+		vp := types.NewTypeParam(vn, types.NewInterfaceType(nil, nil))
+		sig := types.NewSignatureType(nil, nil, []*types.TypeParam{kp, vp},
+			types.NewTuple(types.NewVar(token.NoPos, pkg, "m", types.NewMap(kp, vp)), types.NewVar(token.NoPos, pkg, "k", kp)),
+			types.NewTuple(types.NewVar(token.NoPos, pkg, "", boolT)), false)
+		fn := types.NewFunc(token.NoPos, pkg, "has", sig)
+		sc.Insert(fn)
+		e.specObjs[fn] = "has"
+	}
 	// table accessors
 	e.installTableObjs(pkg)
 	// string helpers
@@ -483,6 +496,7 @@ func (e *Engine) installSpecObjs(pkg *types.Package) {
 	mk("strLt", []types.Type{strT, strT}, boolT, false)
 	mk("strLower", []types.Type{strT}, strT, false)
 	mk("allocated", []types.Type{anyT}, boolT, false)
+	mk("fresh", []types.Type{anyT}, boolT, false)
 	mk("isType", []types.Type{anyT, strT}, boolT, false)
 	mk("commits", nil, types.Typ[types.Int], false)
 	mk("itPos", []types.Type{anyT}, types.Typ[types.Int], false)
